@@ -99,6 +99,7 @@ def lib():
             at that moment it holds ids 1..k at least."""
 
             tw = None
+            peek = ()
 
             def __init__(self, timeout=0.2):
                 self.polls = []
@@ -107,6 +108,13 @@ def lib():
             def _process_message(self, message):
                 super()._process_message(message)
                 self.polls.append((message[0], [d.id for d in self.tw.detections]))
+                for x in self.peek:
+                    # a look at what a file-writing worker has saved so far (a progress display); what it shows while the
+                    # file is being written is not judged, and failing to read a half-written file is not the library's fault
+                    try:
+                        x.data
+                    except Exception:
+                        pass
 
         _L.update(auditok=auditok, w=w, core=core, util=util, Rec=Rec, Poll=Poll)
     return _L
@@ -342,6 +350,7 @@ def make_factory(cfg):
         _log_stop_request(ctx, ctx.tw)
         for x in getattr(ctx, "pollers", ()):
             x.tw = ctx.tw
+            x.peek = [y for y in [ctx.saver] + ctx.joiners if y is not None] if cfg.get("peek") else ()
         ctx.second = None
         if cfg.get("second"):
             # a second, independent pipeline in the same process (own reader, own saver, own observers)
@@ -1091,6 +1100,9 @@ def plan(prop, tier):
         for p in ("AaA", "AAAA"):
             tasks.append((dict(base, pattern=p, observers=["join", "regsave"], saver=True, cache=0.1, late_start=True), 0, 0, "sync", None, None))
         tasks.append((dict(base, pattern="AaA", observers=[], saver=True, cache=0.1, saver_name="stream.raw"), 0, 0, "sync", None, None))
+        # somebody looks at saver.data / joiner.data while the stream is running (a progress display), wav and raw export
+        for nm in ("stream.raw", "stream.wav"):
+            tasks.append((dict(base, pattern="AaA", observers=["poll", "join"], saver=True, cache=0.1, saver_name=nm, peek=True), 0, 0, "sync", None, None))
         # stereo events joined with silence (two detections at least, so that there is a gap to fill)
         for sil in (0.1, 0.25):
             tasks.append((dict(base, pattern="AaaA", observers=["join"], sw=2, ch=2, silence=sil), 0, 0, "sync", None, None))
